@@ -102,6 +102,12 @@ func newEventFromUntrustedJSONV3(eventJSON []byte, roomVersion IRoomVersion) (PD
 	if err = checkEventContentHash(eventJSON); err != nil {
 		res.redacted = true
 
+		// The size limit applies to the event as it was received, not to the
+		// (small) redacted copy that is kept of it.
+		if err = checkEventLength(eventJSON); err != nil {
+			return nil, err
+		}
+
 		// If the content hash doesn't match then we have to discard all non-essential fields
 		// because they've been tampered with.
 		var redactedJSON []byte
